@@ -96,6 +96,14 @@ class GStore(QueueStorage):
         if self.gate:
             self.ctl.park('store', (op, sid))
 
+    def _call(self, fn, *a):
+        # real backends (disk) block in real time inside the call: tell the driver when one is in progress
+        self.ctl.inner_busy += 1
+        try:
+            return fn(*a)
+        finally:
+            self.ctl.inner_busy -= 1
+
     def write(self, envelope, timestamp):
         c = self.ctl
         self._gate('write', 0)
@@ -103,14 +111,14 @@ class GStore(QueueStorage):
         if self.nwrites in self.fail_writes:
             c.log(t='store', op='write_failed', id=0, now=c.now())
             raise sq.QueueError('scripted write failure')
-        raw = self.inner.write(envelope.copy() if self.copy else envelope, timestamp)
+        raw = self._call(self.inner.write, envelope.copy() if self.copy else envelope, timestamp)
         sid = c.sid(raw)
         c.rcpts[sid] = list(envelope.recipients)
         c.obj2id[id(envelope)] = sid
         c.keep.append(envelope)
         c.stored.add(sid)
         c.log(t='store', op='write', id=sid, ts=int(timestamp), n=len(envelope.recipients),
-              sender=1 if envelope.sender else 0, now=c.now())
+              sender=1 if envelope.sender else 0, bounce=1 if isinstance(envelope, Bounce) else 0, now=c.now())
         return raw
 
     def _raw(self, sid_or_raw):
@@ -120,14 +128,14 @@ class GStore(QueueStorage):
         c = self.ctl
         sid = c.sid(id)
         self._gate('set_timestamp', sid)
-        self.inner.set_timestamp(id, timestamp)
+        self._call(self.inner.set_timestamp, id, timestamp)
         c.log(t='store', op='set_timestamp', id=sid, ts=int(timestamp), now=c.now())
 
     def increment_attempts(self, id):
         c = self.ctl
         sid = c.sid(id)
         self._gate('increment_attempts', sid)
-        n = self.inner.increment_attempts(id)
+        n = self._call(self.inner.increment_attempts, id)
         c.log(t='store', op='increment_attempts', id=sid, n=int(n), now=c.now())
         return n
 
@@ -136,7 +144,7 @@ class GStore(QueueStorage):
         sid = c.sid(id)
         self._gate('set_recipients_delivered', sid)
         try:
-            self.inner.set_recipients_delivered(id, rcpt_indexes)
+            self._call(self.inner.set_recipients_delivered, id, rcpt_indexes)
         except Exception as e:  # noqa
             c.log(t='store', op='delivered_failed', id=sid, cls=type(e).__name__, now=c.now())
             raise
@@ -145,7 +153,7 @@ class GStore(QueueStorage):
     def load(self):
         c = self.ctl
         self._gate('load', 0)
-        entries = list(self.inner.load())
+        entries = self._call(lambda: list(self.inner.load()))
         out = []
         for ts, raw in entries:
             sid = c.sid(raw)
@@ -159,7 +167,7 @@ class GStore(QueueStorage):
         sid = c.sid(id)
         self._gate('get', sid)
         try:
-            env, attempts = self.inner.get(id)
+            env, attempts = self._call(self.inner.get, id)
         except Exception as e:  # noqa
             c.log(t='store', op='get_failed', id=sid, cls=type(e).__name__, now=c.now())
             raise
@@ -176,7 +184,7 @@ class GStore(QueueStorage):
         c = self.ctl
         sid = c.sid(id)
         self._gate('remove', sid)
-        self.inner.remove(id)
+        self._call(self.inner.remove, id)
         c.stored.discard(sid)
         c.log(t='store', op='remove', id=sid, now=c.now())
 
@@ -218,17 +226,17 @@ class GRelay(Relay):
         ok, perm, temp, rids = [], [], [], {}
         if out in ('ok', 'reply') or out is None:
             ok = list(pos)
-            c.log(t='att_end', id=sid, kind=out or 'ok', ok=ok, perm=[], temp=[], rid=[], now=c.now())
+            c.log(t='att_end', id=sid, kind=out or 'ok', rcpts=list(pos), ok=ok, perm=[], temp=[], rid=[], now=c.now())
             return Reply('250', '2.0.0 delivered') if out == 'reply' else None
         if out[0] in 'TP' and len(out) >= 2 and out[1:].isdigit():
             rid = int(out[1:])
             lst = temp if out[0] == 'T' else perm
             lst.extend(pos)
-            c.log(t='att_end', id=sid, kind='raise' + out[0], ok=[], perm=perm, temp=temp, rid=[rid] * n, now=c.now())
+            c.log(t='att_end', id=sid, kind='raise' + out[0], rcpts=list(pos), ok=[], perm=perm, temp=temp, rid=[rid] * n, now=c.now())
             cls = TransientRelayError if out[0] == 'T' else PermanentRelayError
             raise cls('rid%d' % rid, Reply('450' if out[0] == 'T' else '550', ('4.0.0' if out[0] == 'T' else '5.0.0') + ' rid%d' % rid))
         if out == 'X':
-            c.log(t='att_end', id=sid, kind='raiseX', ok=[], perm=[], temp=list(pos), rid=[0] * n, now=c.now())
+            c.log(t='att_end', id=sid, kind='raiseX', rcpts=list(pos), ok=[], perm=[], temp=list(pos), rid=[0] * n, now=c.now())
             raise ValueError('boom')
         kind, letters = out.split(':')[0], out.split(':')[1]
         rl = [int(x) for x in out.split(':')[2].split(',')] if out.count(':') >= 2 else [i + 1 for i in range(n)]
@@ -248,7 +256,7 @@ class GRelay(Relay):
                 perm.append(p)
                 res.append(PermanentRelayError('rid%d' % rid, Reply('550', '5.0.0 rid%d' % rid)))
                 rids[p] = rid
-        c.log(t='att_end', id=sid, kind=kind, ok=ok, perm=perm, temp=temp, rid=[rids[p] for p in pos], now=c.now())
+        c.log(t='att_end', id=sid, kind=kind, rcpts=list(pos), ok=ok, perm=perm, temp=temp, rid=[rids[p] for p in pos], now=c.now())
         if kind == 'seq':
             return res
         return dict(zip(envelope.recipients, res))
@@ -269,7 +277,7 @@ class Scenario(object):
         self.ctl = c = Ctl()
         self.inner = make_inner(cfg)
         gate = cfg.get('gate_store', False)
-        self.store = GStore(self.inner, c, gate, cfg.get('copy', gate), announce=cfg.get('announce', False))
+        self.store = GStore(self.inner, c, gate, cfg.get('copy', cfg.get('backend') == 'gdict'), announce=cfg.get('announce', False))
         self.relay = GRelay(c)
         bo = cfg.get('backoff', [0, None])
 
@@ -309,11 +317,14 @@ class Scenario(object):
                       has_body=(obody in whole), headers_only=bool(cfg.get('headers_only', False)),
                       names=all(a.encode() in whole for a in env_rcpts(orig)), now=c.now())
             res = real_enqueue(env)
+            c.log(t='enq_ret', msg=0, ids=[c.sid(i) if not isinstance(i, BaseException) else 0 for _, i in res], now=c.now())
             return res
         self.q.enqueue = enqueue
         self.pending_msgs = list(range(1, cfg.get('nmsgs', 1) + 1))
         self.flushes = cfg.get('flush', 0)
+        self.announces = 2 if cfg.get('announce') else 0
         self.greenlets = []
+        self.gkinds = []
         self.msgenv = {}
 
     def msg_of(self, env):
@@ -355,6 +366,11 @@ class Scenario(object):
             opts.append(('flush',))
         if CLOCK.next_deadline() is not None:
             opts.append(('adv',))
+        if self.cfg.get('announce') and self.announces > 0:
+            for i, s in enumerate(c.parked):
+                if s['kind'] == 'wait':
+                    for sid in sorted(c.stored)[:2]:
+                        opts.append(('announce', i, sid))
         return opts
 
     def outcomes(self, n):
@@ -376,12 +392,11 @@ class Scenario(object):
 
             def run():
                 try:
-                    res = self.q.enqueue(env)
-                    ids = [c.sid(i) if not isinstance(i, BaseException) else 0 for _, i in res]
-                    c.log(t='enq_ret', msg=m, ids=ids, now=c.now())
+                    self.q.enqueue(env)
                 except BaseException as e:  # noqa
                     c.log(t='enq_raised', msg=m, cls=type(e).__name__, now=c.now())
             self.greenlets.append(gevent.spawn(run))
+            self.gkinds.append('enq')
         elif opt[0] == 'flush':
             self.flushes -= 1
             c.log(t='flush_call', now=c.now())
@@ -390,22 +405,30 @@ class Scenario(object):
                 self.q.flush()
                 c.log(t='flush_ret', now=c.now())
             self.greenlets.append(gevent.spawn(runf))
+            self.gkinds.append('flush')
         elif opt[0] == 'adv':
             CLOCK.fire_next()
             c.log(t='advance', now=c.now())
+        elif opt[0] == 'announce':
+            self.announces -= 1
+            raw = [r for r, k in c.ids.items() if k == opt[2]][0]
+            c.log(t='announce', id=opt[2], now=c.now())
+            c.release(opt[1], [(CLOCK.now, raw)])
         self.settle()
 
     def settle(self):
         vt.settle()
-        busy = getattr(self.inner, 'busy', None)
+        c = self.ctl
         n = 0
-        while busy is not None and busy() and n < 2000:
+        while c.inner_busy > 0 and n < 5000:
             gevent.sleep(0.001)
             vt.settle()
             n += 1
-        c = self.ctl
+        rp, sp = self.cfg.get('relay_pool'), self.cfg.get('store_pool')
+        full = bool((rp and len(self.q.relay_pool) >= rp) or (sp and len(self.q.store_pool) >= sp))
         c.log(t='quiesce', now=c.now(), parked_store=sum(1 for s in c.parked if s['kind'] == 'store'),
-              inflight=sorted(c.inflight), timers=[int(d) for d in CLOCK.deadlines()], stored=sorted(c.stored))
+              inflight=sorted(c.inflight), timers=[int(d) for d in CLOCK.deadlines()], stored=sorted(c.stored),
+              poolfull=full)
 
     def run(self, chooser, max_steps=60, drain_outcome=None, drain_steps=200):
         """chooser(step, options) -> index or None (= stop deciding, drain)"""
@@ -456,8 +479,8 @@ class Scenario(object):
                 else:
                     drained = True
                     break
-            hung = [g for g in self.greenlets if not g.ready()]
-            c.log(t='final', drained=drained, hung=len(hung), now=c.now())
+            hung = [k for g, k in zip(self.greenlets, self.gkinds) if not g.ready()]
+            c.log(t='final', drained=drained, hung=hung.count('flush'), hung_enq=hung.count('enq'), now=c.now())
         except Watchdog:
             c.log(t='watchdog', now=c.now())
         finally:
@@ -471,6 +494,8 @@ class Scenario(object):
                 gevent.idle()
             except BaseException:  # noqa
                 pass
+        from . import backends
+        backends.cleanup_disk(self.inner)
         return c.ev, taken
 
 
@@ -480,3 +505,45 @@ def env_rcpts(env):
 
 def make_dict(cfg):
     return DictStorage()
+
+
+def dfs(cfg, make_inner, max_depth, budget, drain_outcome=None, on_trace=None):
+    """stateless DFS over decision sequences (re-execution); returns number of executions"""
+    prefix = list(cfg.get('force_prefix', []))
+    fixed = len(prefix)
+    n = 0
+    while n < budget:
+        counts = []
+
+        def chooser(step, opts, prefix=prefix, counts=counts):
+            if step >= max_depth:
+                return None
+            counts.append(len(opts))
+            return prefix[step] if step < len(prefix) else 0
+        sc = Scenario(cfg, make_inner)
+        ev, taken = sc.run(chooser, drain_outcome=drain_outcome)
+        n += 1
+        if len(counts) >= fixed and all(prefix[i] < counts[i] for i in range(min(fixed, len(counts)))):
+            on_trace(ev, taken)
+        vec = (prefix + [0] * len(counts))[:len(counts)]
+        i = len(vec) - 1
+        while i >= fixed and vec[i] + 1 >= counts[i]:
+            i -= 1
+        if i < fixed:
+            break
+        prefix = vec[:i] + [vec[i] + 1]
+    return n
+
+
+def random_walks(cfg, make_inner, nwalks, max_depth, rnd, drain_outcome=None, on_trace=None):
+    for _ in range(nwalks):
+        stop = rnd.randint(2, max_depth)
+
+        def chooser(step, opts, stop=stop):
+            if step >= stop:
+                return None
+            return rnd.randrange(len(opts))
+        sc = Scenario(cfg, make_inner)
+        ev, taken = sc.run(chooser, drain_outcome=drain_outcome)
+        on_trace(ev, taken)
+    return nwalks
